@@ -12,6 +12,7 @@ import (
 	"errors"
 	"fmt"
 	"io"
+	"math"
 	"sort"
 	"strconv"
 )
@@ -217,6 +218,17 @@ func ReadFrom(r io.Reader) (idx Index, err error) {
 		}
 		if r.Length < 0 || r.Start < 0 || r.BasesPerLine < 0 || r.BytesPerLine < r.BasesPerLine || (r.Length > 0 && r.BasesPerLine == 0) {
 			return nil, parseError(line, 0, errInvalidRecord)
+		}
+		if r.BasesPerLine > 0 {
+			// The file offset of every base must be representable:
+			// position does its arithmetic without overflow checks.
+			lines := r.Length/r.BasesPerLine + 1
+			if r.BytesPerLine > (math.MaxInt-r.BasesPerLine)/lines {
+				return nil, parseError(line, 0, errInvalidRecord)
+			}
+			if r.Start > math.MaxInt64-int64(lines*r.BytesPerLine+r.BasesPerLine) {
+				return nil, parseError(line, 0, errInvalidRecord)
+			}
 		}
 		idx[r.Name] = r
 	}
